@@ -99,6 +99,65 @@ def judge_value(exp, out, strict):
     return "kind"
 
 
+# ---- run-length outcomes (mirror of JudgeRL / JudgeRLRows in spec/abs/RunLength.tla)
+def _same_val(dt, x, y):
+    if _isf(dt):
+        x, y = _norm(x), _norm(y)
+        return x != [0, 0] and y != [0, 0] and x == y
+    return _norm(x) == _norm(y)
+
+
+def canonical(ev, n):
+    return len(ev) >= 1 and ev[0] == 0 and ev[-1] == n and all(a < b for a, b in zip(ev, ev[1:]))
+
+
+def no_adj_eq(dt, vals):
+    return all(not _same_val(dt, a, b) for a, b in zip(vals, vals[1:]))
+
+
+def consistent(ev, vals, dense):
+    if len(ev) != len(vals) + 1 or any(a > b for a, b in zip(ev, ev[1:])):
+        return False
+    dec = []
+    for i, v in enumerate(vals):
+        dec += [v] * (ev[i + 1] - ev[i])
+    return _norm(dec) == _norm(dense)
+
+
+def judge_rl(exp, out, strict):
+    if out[0] != "rl":
+        return "kind"
+    if strict and exp[1] != out[1]:
+        return "dtype"
+    if len(exp[2]) != len(out[2]):
+        return "shape"
+    if not seq_eq(exp[1], exp[2], out[1], out[2]):
+        return "value"
+    if not consistent(out[3], out[4], out[2]):
+        return "inconsistent-encoding"
+    if not canonical(out[3], len(out[2])):
+        return "not-canonical"
+    if exp[3] and not no_adj_eq(out[1], out[4]):
+        return "adjacent-equal-runs"
+    return "ok"
+
+
+def judge_rlrows(exp, out, strict):
+    if out[0] != "rlrows":
+        return "kind"
+    if strict and exp[1] != out[1]:
+        return "dtype"
+    if not shape_eq(exp[2], out[2]):
+        return "shape"
+    if not rows_eq(exp[1], exp[2], out[1], out[2]):
+        return "value"
+    if any(not consistent(e, v, d) for e, v, d in zip(out[3], out[4], out[2])):
+        return "inconsistent-encoding"
+    if any(len(e) != len(v) + 1 for e, v in zip(out[3], out[4])):
+        return "lock-step"
+    return "ok"
+
+
 def judge(exp, out, strict=False):
     te, to = exp[0], out[0]
     if te == "unspec":
@@ -107,6 +166,12 @@ def judge(exp, out, strict=False):
         return "ok" if to == "raised" else "not-refused"
     if to == "noreturn":
         return "noreturn"
+    if to == "mutated":
+        return "operand-modified"
+    if te in ("rl", "rlrows"):
+        if to == "raised":
+            return "raised"
+        return judge_rl(exp, out, strict) if te == "rl" else judge_rlrows(exp, out, strict)
     if to == "raised":
         if te in ("partial", "pcol") and not all(m == 1 for m in exp[3]):
             return "unspec"
